@@ -6,6 +6,8 @@ import Gin.Parser
 
 namespace Gin.Parser
 
+variable (blk : Bool)
+
 /-- tokens a well-formed rendering is made of -/
 def good (t : Token) : Bool := t.kind != .tokerr && t.kind != .errortoken
 
@@ -22,7 +24,7 @@ theorem advOne_cons (t : Token) (ts : List Token) (h : Clean ts) : advOne (t :: 
     simp [advOne, advOne.drop, h1, h2]
 
 /-- trivia skipped outside blocks -/
-def dropTriv (ts : List Token) : List Token := ts.dropWhile (skippable false)
+def dropTriv (blk : Bool) (ts : List Token) : List Token := ts.dropWhile (skippable blk)
 
 theorem Clean.tail {t : Token} {ts : List Token} (h : Clean (t :: ts)) : Clean ts :=
   fun x hx => h x (List.mem_cons_of_mem _ hx)
@@ -44,15 +46,15 @@ theorem skipWhile_clean (p : Token → Bool) (n : Nat) (ts : List Token) (hc : C
         exact ih rest hc.tail (by simp at hn; omega)
       · simp [hp]
 
-theorem skipWs_clean (ts : List Token) (hc : Clean ts) : skipWs false ts = .ok (dropTriv ts) :=
+theorem skipWs_clean (ts : List Token) (hc : Clean ts) : skipWs blk ts = .ok (dropTriv blk ts) :=
   skipWhile_clean _ _ ts hc (Nat.le_refl _)
 
 theorem clean_dropWhile (p : Token → Bool) (ts : List Token) (hc : Clean ts) : Clean (ts.dropWhile p) :=
   fun x hx => hc x ((List.dropWhile_sublist p).subset hx)
 
 theorem adv_clean (t : Token) (ts : List Token) (hc : Clean ts) :
-    adv false (t :: ts) = .ok (dropTriv ts) := by
-  simp [adv, advOne_cons t ts hc, skipWs_clean ts hc]
+    adv blk (t :: ts) = .ok (dropTriv blk ts) := by
+  simp [adv, advOne_cons t ts hc, skipWs_clean blk ts hc]
 
 /-! ### the rendered grammar -/
 
@@ -85,7 +87,7 @@ theorem triv_clean (l : List Bool) : Clean (triv l) := by
     · rfl
     · exact ih t ht
 
-theorem dropTriv_triv (l : List Bool) (ts : List Token) : dropTriv (triv l ++ ts) = dropTriv ts := by
+theorem dropTriv_triv (l : List Bool) (ts : List Token) : dropTriv blk (triv l ++ ts) = dropTriv blk ts := by
   induction l with
   | nil => simp [triv]
   | cons b r ih =>
@@ -197,6 +199,8 @@ end Gin.Parser
 
 namespace Gin.Parser
 
+variable (blk : Bool)
+
 theorem clean_append {a b : List Token} (ha : Clean a) (hb : Clean b) : Clean (a ++ b) := by
   intro t ht
   rcases List.mem_append.1 ht with h | h
@@ -273,40 +277,40 @@ mutual
 end
 
 /-- a rendering starts with an opener, a minus sign or an atom: never trivia, a closer, a comma or a colon -/
-theorem render_head (l : L) : ∃ t ts, render l = t :: ts ∧ skippable false t = false ∧
+theorem render_head (l : L) : ∃ t ts, render l = t :: ts ∧ skippable blk t = false ∧
     isOp t "]" = false ∧ isOp t ")" = false ∧ isOp t "," = false ∧ isOp t "}" = false ∧
     isOp t ":" = false := by
   cases l <;> simp [render, opTok, atomTok, strTok, skippable, isOp] <;> decide
 
-theorem dropTriv_cons_of_not (t : Token) (ts : List Token) (h : skippable false t = false) :
-    dropTriv (t :: ts) = t :: ts := by
+theorem dropTriv_cons_of_not (t : Token) (ts : List Token) (h : skippable blk t = false) :
+    dropTriv blk (t :: ts) = t :: ts := by
   simp [dropTriv, List.dropWhile, h]
 
-theorem dropTriv_render (l : L) (r : List Token) : dropTriv (render l ++ r) = render l ++ r := by
-  obtain ⟨t, ts, h, hs, _⟩ := render_head l
-  rw [h]; exact dropTriv_cons_of_not _ _ hs
+theorem dropTriv_render (l : L) (r : List Token) : dropTriv blk (render l ++ r) = render l ++ r := by
+  obtain ⟨t, ts, h, hs, _⟩ := render_head blk l
+  rw [h]; exact dropTriv_cons_of_not blk _ _ hs
 
 /-- what follows the items of a container: maybe a last item, then the closer -/
 def tailToks (final : Option L) (close : String) (j : List Bool) (rest : List Token) : List Token :=
   renderFinal final ++ (opTok close :: (triv j ++ rest))
 
-theorem closer_not_skippable (close : String) : skippable false (opTok close) = false := by
+theorem closer_not_skippable (close : String) : skippable blk (opTok close) = false := by
   simp [skippable, opTok]
 
 theorem dropTriv_items_tail (items : List (L × List Bool)) (final : Option L) (close : String)
     (j : List Bool) (rest : List Token) :
-    dropTriv (renderItems items ++ tailToks final close j rest) =
+    dropTriv blk (renderItems items ++ tailToks final close j rest) =
       renderItems items ++ tailToks final close j rest := by
   cases items with
   | nil =>
     cases final with
     | none =>
       simp only [renderItems, tailToks, renderFinal, List.nil_append]
-      exact dropTriv_cons_of_not _ _ (closer_not_skippable close)
-    | some l => simp only [renderItems, tailToks, renderFinal, List.nil_append]; exact dropTriv_render l _
+      exact dropTriv_cons_of_not blk _ _ (closer_not_skippable blk close)
+    | some l => simp only [renderItems, tailToks, renderFinal, List.nil_append]; exact dropTriv_render blk l _
   | cons it rest' =>
     obtain ⟨l, n⟩ := it
-    simp only [renderItems, List.append_assoc]; exact dropTriv_render l _
+    simp only [renderItems, List.append_assoc]; exact dropTriv_render blk l _
 
 theorem tailToks_clean (final : Option L) (close : String) (j : List Bool) (rest : List Token)
     (hr : Clean rest) : Clean (tailToks final close j rest) :=
@@ -319,10 +323,12 @@ end Gin.Parser
 
 namespace Gin.Parser
 
+variable (blk : Bool)
+
 theorem cur_cons (t : Token) (ts : List Token) : cur (t :: ts) = t := rfl
 
 theorem parseValue_atom (n : Nat) (v : Val) (j : List Bool) (rest : List Token) (hr : Clean rest) :
-    parseValue false (n + 1) (atomTok v :: (triv j ++ rest)) = .ok (.lit v, dropTriv rest) := by
+    parseValue blk (n + 1) (atomTok v :: (triv j ++ rest)) = .ok (.lit v, dropTriv blk rest) := by
   have hc : Clean (triv j ++ rest) := clean_append (triv_clean j) hr
   simp only [parseValue, cur_cons]
   have h1 : isOp (atomTok v) "[" = false := by simp [isOp, atomTok]
@@ -332,36 +338,36 @@ theorem parseValue_atom (n : Nat) (v : Val) (j : List Bool) (rest : List Token) 
   simp only [h1, h2, h3, Bool.false_eq_true, if_false, parseBasic, cur_cons, h4]
   have h5 : isBasic (atomTok v) = true := by simp [isBasic, atomTok]
   simp only [h5, Bool.not_true, Bool.false_eq_true, if_false]
-  simp [atomTok, adv_clean _ _ hc, dropTriv_triv]
+  simp [atomTok, adv_clean blk _ _ hc, dropTriv_triv blk]
 
 
 /-- what follows a value is not another string literal (it would be concatenated) -/
-def NoStr (rest : List Token) : Prop := (cur (dropTriv rest)).kind ≠ .string
+def NoStr (rest : List Token) : Prop := (cur (dropTriv blk rest)).kind ≠ .string
 
-theorem noStr_op (s : String) (r : List Token) : NoStr (opTok s :: r) := by
+theorem noStr_op (s : String) (r : List Token) : NoStr blk (opTok s :: r) := by
   unfold NoStr
-  rw [dropTriv_cons_of_not _ _ (closer_not_skippable s)]
+  rw [dropTriv_cons_of_not blk _ _ (closer_not_skippable blk s)]
   simp [cur_cons, opTok]
 
 theorem parseValue_natom (n : Nat) (j1 : List Bool) (v : Val) (j : List Bool) (rest : List Token)
     (hr : Clean rest) :
-    parseValue false (n + 1) (opTok "-" :: (triv j1 ++ (negTok v :: (triv j ++ rest)))) =
-      .ok (.lit v, dropTriv rest) := by
+    parseValue blk (n + 1) (opTok "-" :: (triv j1 ++ (negTok v :: (triv j ++ rest)))) =
+      .ok (.lit v, dropTriv blk rest) := by
   have hc2 : Clean (triv j ++ rest) := clean_append (triv_clean j) hr
   have hc1 : Clean (triv j1 ++ (negTok v :: (triv j ++ rest))) :=
     clean_append (triv_clean j1) (clean_cons rfl hc2)
-  have hneg : dropTriv (negTok v :: (triv j ++ rest)) = negTok v :: (triv j ++ rest) :=
-    dropTriv_cons_of_not _ _ (by simp [skippable, negTok])
+  have hneg : dropTriv blk (negTok v :: (triv j ++ rest)) = negTok v :: (triv j ++ rest) :=
+    dropTriv_cons_of_not blk _ _ (by simp [skippable, negTok])
   simp only [parseValue, cur_cons]
   have h1 : isOp (opTok "-") "[" = false := by simp [isOp_opTok]
   have h2 : isOp (opTok "-") "(" = false := by simp [isOp_opTok]
   have h3 : isOp (opTok "-") "{" = false := by simp [isOp_opTok]
   have h4 : isOp (opTok "-") "-" = true := by simp [isOp_opTok]
   simp only [h1, h2, h3, Bool.false_eq_true, if_false, parseBasic, cur_cons, h4, if_true,
-    adv_clean _ _ hc1, dropTriv_triv, hneg]
+    adv_clean blk _ _ hc1, dropTriv_triv blk, hneg]
   have h5 : isBasic (negTok v) = true := by simp [isBasic, negTok]
   simp only [h5, Bool.not_true, Bool.false_eq_true, if_false]
-  simp [negTok, adv_clean _ _ hc2, dropTriv_triv]
+  simp [negTok, adv_clean blk _ _ hc2, dropTriv_triv blk]
 
 theorem length_renderStrs (more : List (String × List Bool)) : more.length ≤ (renderStrs more).length := by
   induction more with
@@ -369,25 +375,25 @@ theorem length_renderStrs (more : List (String × List Bool)) : more.length ≤ 
   | cons x rest ih => obtain ⟨s, j⟩ := x; simp only [renderStrs, List.length_cons, List.length_append]; omega
 
 theorem dropTriv_renderStrs (more : List (String × List Bool)) (rest : List Token) (hne : more ≠ []) :
-    dropTriv (renderStrs more ++ rest) = renderStrs more ++ rest := by
+    dropTriv blk (renderStrs more ++ rest) = renderStrs more ++ rest := by
   cases more with
   | nil => exact absurd rfl hne
   | cons x r =>
     obtain ⟨s, j⟩ := x
     simp only [renderStrs, List.cons_append]
-    exact dropTriv_cons_of_not _ _ (by simp [skippable, strTok])
+    exact dropTriv_cons_of_not blk _ _ (by simp [skippable, strTok])
 
 theorem moreStrings_render (more : List (String × List Bool)) (acc : String) (n : Nat)
-    (rest : List Token) (hr : Clean rest) (hns : NoStr rest) (hn : more.length ≤ n) :
-    moreStrings false n (.str acc) (dropTriv (renderStrs more ++ rest)) =
-      .ok (.str (acc ++ joinStrs more), dropTriv rest) := by
+    (rest : List Token) (hr : Clean rest) (hns : NoStr blk rest) (hn : more.length ≤ n) :
+    moreStrings blk n (.str acc) (dropTriv blk (renderStrs more ++ rest)) =
+      .ok (.str (acc ++ joinStrs more), dropTriv blk rest) := by
   induction more generalizing acc n with
   | nil =>
     simp only [renderStrs, List.nil_append, joinStrs, String.append_empty]
     cases n with
     | zero => simp [moreStrings]
     | succ n =>
-      have : ((cur (dropTriv rest)).kind == TKind.string) = false := by
+      have : ((cur (dropTriv blk rest)).kind == TKind.string) = false := by
         unfold NoStr at hns; simpa using hns
       simp [moreStrings, this]
   | cons x more ih =>
@@ -397,22 +403,22 @@ theorem moreStrings_render (more : List (String × List Bool)) (acc : String) (n
     | succ n =>
       have hcl : Clean (triv j ++ (renderStrs more ++ rest)) :=
         clean_append (triv_clean j) (clean_append (renderStrs_clean more) hr)
-      have hd : dropTriv (renderStrs ((s, j) :: more) ++ rest) =
+      have hd : dropTriv blk (renderStrs ((s, j) :: more) ++ rest) =
           strTok s :: (triv j ++ (renderStrs more ++ rest)) := by
-        rw [dropTriv_renderStrs _ _ (by simp)]; simp [renderStrs]
+        rw [dropTriv_renderStrs blk _ _ (by simp)]; simp [renderStrs]
       rw [hd]
       simp only [moreStrings, cur_cons]
       have hk : ((strTok s).kind == TKind.string) = true := by simp [strTok]
       simp only [hk, if_true]
       have ha : (strTok s).atom = some (.str s) := rfl
-      simp only [ha, concatAtoms, adv_clean _ _ hcl, dropTriv_triv]
+      simp only [ha, concatAtoms, adv_clean blk _ _ hcl, dropTriv_triv blk]
       rw [ih (acc ++ s) n (by simp at hn; omega)]
       simp [joinStrs, String.append_assoc]
 
 theorem parseValue_strs (n : Nat) (s0 : String) (j0 : List Bool) (more : List (String × List Bool))
-    (rest : List Token) (hr : Clean rest) (hns : NoStr rest) :
-    parseValue false (n + 1) (strTok s0 :: (triv j0 ++ (renderStrs more ++ rest))) =
-      .ok (.lit (.str (s0 ++ joinStrs more)), dropTriv rest) := by
+    (rest : List Token) (hr : Clean rest) (hns : NoStr blk rest) :
+    parseValue blk (n + 1) (strTok s0 :: (triv j0 ++ (renderStrs more ++ rest))) =
+      .ok (.lit (.str (s0 ++ joinStrs more)), dropTriv blk rest) := by
   have hc : Clean (triv j0 ++ (renderStrs more ++ rest)) :=
     clean_append (triv_clean j0) (clean_append (renderStrs_clean more) hr)
   simp only [parseValue, cur_cons]
@@ -425,15 +431,15 @@ theorem parseValue_strs (n : Nat) (s0 : String) (j0 : List Bool) (more : List (S
   simp only [h5, Bool.not_true, Bool.false_eq_true, if_false]
   have ha : (strTok s0).atom = some (.str s0) := rfl
   have hk : ((strTok s0).kind == TKind.string) = true := by simp [strTok]
-  simp only [ha, hk, adv_clean _ _ hc, dropTriv_triv, if_true]
-  have hlen : more.length ≤ (dropTriv (renderStrs more ++ rest)).length := by
+  simp only [ha, hk, adv_clean blk _ _ hc, dropTriv_triv blk, if_true]
+  have hlen : more.length ≤ (dropTriv blk (renderStrs more ++ rest)).length := by
     cases more with
     | nil => simp
     | cons x r =>
-      rw [dropTriv_renderStrs _ _ (by simp)]
+      rw [dropTriv_renderStrs blk _ _ (by simp)]
       have := length_renderStrs (x :: r)
       simp only [List.length_append]; omega
-  rw [moreStrings_render more s0 _ rest hr hns hlen]
+  rw [moreStrings_render blk more s0 _ rest hr hns hlen]
 
 /-- what follows the entries of a dict: maybe a last entry, then the closer -/
 def dtail (final : Option (L × List Bool × L)) (j : List Bool) (rest : List Token) : List Token :=
@@ -445,29 +451,29 @@ theorem dtail_clean (final : Option (L × List Bool × L)) (j : List Bool) (rest
 
 theorem dropTriv_entries_tail (entries : List (L × List Bool × L × List Bool))
     (final : Option (L × List Bool × L)) (j : List Bool) (rest : List Token) :
-    dropTriv (renderEntries entries ++ dtail final j rest) = renderEntries entries ++ dtail final j rest := by
+    dropTriv blk (renderEntries entries ++ dtail final j rest) = renderEntries entries ++ dtail final j rest := by
   cases entries with
   | nil =>
     cases final with
     | none =>
       simp only [renderEntries, dtail, renderDFinal, List.nil_append]
-      exact dropTriv_cons_of_not _ _ (closer_not_skippable "}")
+      exact dropTriv_cons_of_not blk _ _ (closer_not_skippable blk "}")
     | some e =>
       obtain ⟨k, a, v⟩ := e
       simp only [renderEntries, dtail, renderDFinal, List.nil_append, List.append_assoc]
-      exact dropTriv_render k _
+      exact dropTriv_render blk k _
   | cons e rest' =>
     obtain ⟨k, a, v, b⟩ := e
-    simp only [renderEntries, List.append_assoc]; exact dropTriv_render k _
+    simp only [renderEntries, List.append_assoc]; exact dropTriv_render blk k _
 
 mutual
-  theorem parse_render (l : L) (n : Nat) (rest : List Token) (hr : Clean rest) (hns : NoStr rest)
+  theorem parse_render (l : L) (n : Nat) (rest : List Token) (hr : Clean rest) (hns : NoStr blk rest)
       (h : size l ≤ n) :
-      parseValue false n (render l ++ rest) = .ok (val l, dropTriv rest) := by
+      parseValue blk n (render l ++ rest) = .ok (val l, dropTriv blk rest) := by
     match l, n with
     | .atom v j, n+1 =>
       simp only [render, List.cons_append, List.append_assoc, val]
-      exact parseValue_atom n v j rest hr
+      exact parseValue_atom blk n v j rest hr
     | .list j0 items final j, n+1 =>
       have hsz : sizeItems items + sizeFinal final + 1 ≤ n := by simp [size] at h; omega
       have hit := parseItems_render items final "]" (Or.inl rfl) n j rest hr hsz
@@ -478,7 +484,7 @@ mutual
       simp only [h1, if_true]
       rw [show triv j0 ++ (renderItems items ++ (renderFinal final ++ (opTok "]" :: (triv j ++ rest)))) =
             triv j0 ++ (renderItems items ++ tailToks final "]" j rest) from rfl,
-          adv_clean _ _ hclean, dropTriv_triv, dropTriv_items_tail]
+          adv_clean blk _ _ hclean, dropTriv_triv blk, dropTriv_items_tail blk]
       simp only [hit]
     | .tuple0 j0 j, n+2 =>
       have hclean : Clean (triv j0 ++ (opTok ")" :: (triv j ++ rest))) :=
@@ -487,10 +493,10 @@ mutual
       simp only [render, List.cons_append, List.append_assoc, val, parseValue, cur_cons]
       have h1 : isOp (opTok "(") "[" = false := by simp [isOp_opTok]
       have h2 : isOp (opTok "(") "(" = true := by simp [isOp_opTok]
-      simp only [h1, h2, Bool.false_eq_true, if_false, if_true, adv_clean _ _ hclean, dropTriv_triv,
-        dropTriv_cons_of_not _ _ (closer_not_skippable ")"), parseItems, cur_cons]
+      simp only [h1, h2, Bool.false_eq_true, if_false, if_true, adv_clean blk _ _ hclean, dropTriv_triv blk,
+        dropTriv_cons_of_not blk _ _ (closer_not_skippable blk ")"), parseItems, cur_cons]
       have h3 : isOp (opTok ")") ")" = true := by simp [isOp_opTok]
-      simp only [h3, if_true, adv_clean _ _ hclean2, dropTriv_triv]
+      simp only [h3, if_true, adv_clean blk _ _ hclean2, dropTriv_triv blk]
     | .tuple j0 f n1 items final j, n+1 =>
       have hsz : sizeItems ((f, n1) :: items) + sizeFinal final + 1 ≤ n := by
         simp [size] at h; simp [sizeItems]; omega
@@ -505,7 +511,7 @@ mutual
               (renderFinal final ++ (opTok ")" :: (triv j ++ rest))))))) =
             triv j0 ++ (renderItems ((f, n1) :: items) ++ tailToks final ")" j rest) by
               simp [renderItems, tailToks, List.append_assoc],
-          adv_clean _ _ hclean, dropTriv_triv, dropTriv_items_tail]
+          adv_clean blk _ _ hclean, dropTriv_triv blk, dropTriv_items_tail blk]
       simp only [hit]
       simp [valItems]
     | .paren j0 x j, n+1 =>
@@ -521,15 +527,15 @@ mutual
       rw [show triv j0 ++ (render x ++ (opTok ")" :: (triv j ++ rest))) =
             triv j0 ++ (renderItems [] ++ tailToks (some x) ")" j rest) by
               simp [renderItems, tailToks, renderFinal],
-          adv_clean _ _ hclean, dropTriv_triv, dropTriv_items_tail]
+          adv_clean blk _ _ hclean, dropTriv_triv blk, dropTriv_items_tail blk]
       simp only [hit]
       simp [valItems, valFinal]
     | .natom j1 v j, n+1 =>
       simp only [render, List.cons_append, List.append_assoc, val]
-      exact parseValue_natom n j1 v j rest hr
+      exact parseValue_natom blk n j1 v j rest hr
     | .strs s0 j0 more, n+1 =>
       simp only [render, List.cons_append, List.append_assoc, val]
-      exact parseValue_strs n s0 j0 more rest hr hns
+      exact parseValue_strs blk n s0 j0 more rest hr hns
     | .dict j0 entries final j, n+1 =>
       have hsz : sizeEntries entries + sizeDFinal final + 1 ≤ n := by simp [size] at h; omega
       have hit := parseDictItems_render entries final n j rest hr hsz
@@ -542,7 +548,7 @@ mutual
       simp only [h1, h2, h3, Bool.false_eq_true, if_false, if_true]
       rw [show triv j0 ++ (renderEntries entries ++ (renderDFinal final ++ (opTok "}" :: (triv j ++ rest)))) =
             triv j0 ++ (renderEntries entries ++ dtail final j rest) from rfl,
-          adv_clean _ _ hclean, dropTriv_triv, dropTriv_entries_tail]
+          adv_clean blk _ _ hclean, dropTriv_triv blk, dropTriv_entries_tail blk]
       simp only [hit]
     | .atom .., 0 | .list .., 0 | .tuple0 .., 0 | .tuple0 .., 1 | .tuple .., 0 | .paren .., 0
     | .natom .., 0 | .strs .., 0 | .dict .., 0 =>
@@ -550,32 +556,32 @@ mutual
   theorem parseItems_render (items : List (L × List Bool)) (final : Option L) (close : String)
       (hc1 : close = "]" ∨ close = ")") (n : Nat) (j : List Bool) (rest : List Token)
       (hr : Clean rest) (h : sizeItems items + sizeFinal final + 1 ≤ n) :
-      parseItems false n close (renderItems items ++ tailToks final close j rest)
-        = .ok (valItems items ++ valFinal final, !items.isEmpty, dropTriv rest) := by
+      parseItems blk n close (renderItems items ++ tailToks final close j rest)
+        = .ok (valItems items ++ valFinal final, !items.isEmpty, dropTriv blk rest) := by
     match items, final, n with
     | [], none, n+1 =>
       have hclean : Clean (triv j ++ rest) := clean_append (triv_clean j) hr
       simp only [renderItems, tailToks, renderFinal, List.nil_append, parseItems, cur_cons]
       have h1 : isOp (opTok close) close = true := by simp [isOp_opTok]
-      simp [h1, adv_clean _ _ hclean, dropTriv_triv, valItems, valFinal]
+      simp [h1, adv_clean blk _ _ hclean, dropTriv_triv blk, valItems, valFinal]
     | [], some l, n+1 =>
-      obtain ⟨t, ts, hrd, _, hrb, hrp, hcm, _, _⟩ := render_head l
+      obtain ⟨t, ts, hrd, _, hrb, hrp, hcm, _, _⟩ := render_head blk l
       have hne : isOp t close = false := by rcases hc1 with rfl | rfl <;> assumption
       have hl : size l ≤ n := by simp [sizeItems, sizeFinal] at h; omega
       have hclean : Clean (triv j ++ rest) := clean_append (triv_clean j) hr
       have hclean2 : Clean (opTok close :: (triv j ++ rest)) := clean_cons rfl hclean
-      have hp := parse_render l n (opTok close :: (triv j ++ rest)) hclean2 (noStr_op _ _) hl
+      have hp := parse_render l n (opTok close :: (triv j ++ rest)) hclean2 (noStr_op blk _ _) hl
       simp only [renderItems, tailToks, renderFinal, List.nil_append]
       rw [hrd] at hp ⊢
       simp only [List.cons_append] at hp ⊢
       simp only [parseItems, cur_cons, hne, Bool.false_eq_true, if_false, hp,
-        dropTriv_cons_of_not _ _ (closer_not_skippable close)]
+        dropTriv_cons_of_not blk _ _ (closer_not_skippable blk close)]
       have h1 : isOp (opTok close) close = true := by simp [isOp_opTok]
       have h2 : isOp (opTok close) "," = false := by
         rcases hc1 with rfl | rfl <;> simp [isOp_opTok]
-      simp [h1, h2, adv_clean _ _ hclean, dropTriv_triv, valItems, valFinal]
+      simp [h1, h2, adv_clean blk _ _ hclean, dropTriv_triv blk, valItems, valFinal]
     | (l, k) :: more, final, n+1 =>
-      obtain ⟨t, ts, hrd, _, hrb, hrp, hcm, _, _⟩ := render_head l
+      obtain ⟨t, ts, hrd, _, hrb, hrp, hcm, _, _⟩ := render_head blk l
       have hne : isOp t close = false := by rcases hc1 with rfl | rfl <;> assumption
       have hl : size l ≤ n := by simp [sizeItems] at h; omega
       have hm : sizeItems more + sizeFinal final + 1 ≤ n := by simp [sizeItems] at h; omega
@@ -585,30 +591,30 @@ mutual
         clean_append (triv_clean k) hcl_tail
       have hcl2 : Clean (opTok "," :: (triv k ++ (renderItems more ++ tailToks final close j rest))) :=
         clean_cons rfl hcl1
-      have hp := parse_render l n (opTok "," :: (triv k ++ (renderItems more ++ tailToks final close j rest))) hcl2 (noStr_op _ _) hl
+      have hp := parse_render l n (opTok "," :: (triv k ++ (renderItems more ++ tailToks final close j rest))) hcl2 (noStr_op blk _ _) hl
       have hi := parseItems_render more final close hc1 n j rest hr hm
       simp only [renderItems, List.append_assoc]
       rw [hrd] at hp ⊢
       simp only [List.cons_append, List.append_assoc] at hp ⊢
       simp only [parseItems, cur_cons, hne, Bool.false_eq_true, if_false]
-      rw [hp, dropTriv_cons_of_not _ _ (closer_not_skippable ",")]
+      rw [hp, dropTriv_cons_of_not blk _ _ (closer_not_skippable blk ",")]
       have h1 : isOp (opTok ",") "," = true := by simp [isOp_opTok]
-      simp only [cur_cons, h1, if_true, adv_clean _ _ hcl1, dropTriv_triv, dropTriv_items_tail, hi]
+      simp only [cur_cons, h1, if_true, adv_clean blk _ _ hcl1, dropTriv_triv blk, dropTriv_items_tail blk, hi]
       simp [valItems]
     | _, _, 0 => omega
   theorem parseDictItems_render (entries : List (L × List Bool × L × List Bool))
       (final : Option (L × List Bool × L)) (n : Nat) (j : List Bool) (rest : List Token)
       (hr : Clean rest) (h : sizeEntries entries + sizeDFinal final + 1 ≤ n) :
-      parseDictItems false n (renderEntries entries ++ dtail final j rest)
-        = .ok (valEntries entries ++ valDFinal final, dropTriv rest) := by
+      parseDictItems blk n (renderEntries entries ++ dtail final j rest)
+        = .ok (valEntries entries ++ valDFinal final, dropTriv blk rest) := by
     match entries, final, n with
     | [], none, n+1 =>
       have hclean : Clean (triv j ++ rest) := clean_append (triv_clean j) hr
       simp only [renderEntries, dtail, renderDFinal, List.nil_append, parseDictItems, cur_cons]
       have h1 : isOp (opTok "}") "}" = true := by simp [isOp_opTok]
-      simp [h1, adv_clean _ _ hclean, dropTriv_triv, valEntries, valDFinal]
+      simp [h1, adv_clean blk _ _ hclean, dropTriv_triv blk, valEntries, valDFinal]
     | [], some (k, a, v), n+1 =>
-      obtain ⟨t, ts, hrd, _, _, _, _, hcb, _⟩ := render_head k
+      obtain ⟨t, ts, hrd, _, _, _, _, hcb, _⟩ := render_head blk k
       have hk : size k ≤ n := by simp [sizeEntries, sizeDFinal] at h; omega
       have hv : size v ≤ n := by simp [sizeEntries, sizeDFinal] at h; omega
       have hclean : Clean (triv j ++ rest) := clean_append (triv_clean j) hr
@@ -617,21 +623,21 @@ mutual
         clean_append (triv_clean a) (clean_append (render_clean v) hcl3)
       have hcl1 : Clean (opTok ":" :: (triv a ++ (render v ++ (opTok "}" :: (triv j ++ rest))))) :=
         clean_cons rfl hcl2
-      have hpk := parse_render k n _ hcl1 (noStr_op _ _) hk
-      have hpv := parse_render v n _ hcl3 (noStr_op _ _) hv
+      have hpk := parse_render k n _ hcl1 (noStr_op blk _ _) hk
+      have hpv := parse_render v n _ hcl3 (noStr_op blk _ _) hv
       simp only [renderEntries, dtail, renderDFinal, List.nil_append, List.append_assoc, List.cons_append]
       rw [hrd] at hpk ⊢
       simp only [List.cons_append] at hpk ⊢
       simp only [parseDictItems, cur_cons, hcb, Bool.false_eq_true, if_false, hpk,
-        dropTriv_cons_of_not _ _ (closer_not_skippable ":")]
+        dropTriv_cons_of_not blk _ _ (closer_not_skippable blk ":")]
       have h1 : isOp (opTok ":") ":" = true := by simp [isOp_opTok]
-      simp only [h1, Bool.not_true, Bool.false_eq_true, if_false, adv_clean _ _ hcl2, dropTriv_triv,
-        dropTriv_render, hpv, dropTriv_cons_of_not _ _ (closer_not_skippable "}"), cur_cons]
+      simp only [h1, Bool.not_true, Bool.false_eq_true, if_false, adv_clean blk _ _ hcl2, dropTriv_triv blk,
+        dropTriv_render blk, hpv, dropTriv_cons_of_not blk _ _ (closer_not_skippable blk "}"), cur_cons]
       have h2 : isOp (opTok "}") "," = false := by simp [isOp_opTok]
       have h3 : isOp (opTok "}") "}" = true := by simp [isOp_opTok]
-      simp [h2, h3, adv_clean _ _ hclean, dropTriv_triv, valEntries, valDFinal]
+      simp [h2, h3, adv_clean blk _ _ hclean, dropTriv_triv blk, valEntries, valDFinal]
     | (k, a, v, b) :: more, final, n+1 =>
-      obtain ⟨t, ts, hrd, _, _, _, _, hcb, _⟩ := render_head k
+      obtain ⟨t, ts, hrd, _, _, _, _, hcb, _⟩ := render_head blk k
       have hk : size k ≤ n := by simp [sizeEntries] at h; omega
       have hv : size v ≤ n := by simp [sizeEntries] at h; omega
       have hm : sizeEntries more + sizeDFinal final + 1 ≤ n := by simp [sizeEntries] at h; omega
@@ -645,19 +651,19 @@ mutual
         clean_append (triv_clean a) (clean_append (render_clean v) hcl3)
       have hcl1 : Clean (opTok ":" :: (triv a ++ (render v ++ (opTok "," :: (triv b ++ (renderEntries more ++ dtail final j rest)))))) :=
         clean_cons rfl hcl2
-      have hpk := parse_render k n _ hcl1 (noStr_op _ _) hk
-      have hpv := parse_render v n _ hcl3 (noStr_op _ _) hv
+      have hpk := parse_render k n _ hcl1 (noStr_op blk _ _) hk
+      have hpv := parse_render v n _ hcl3 (noStr_op blk _ _) hv
       have hi := parseDictItems_render more final n j rest hr hm
       simp only [renderEntries, List.append_assoc, List.cons_append]
       rw [hrd] at hpk ⊢
       simp only [List.cons_append] at hpk ⊢
       simp only [parseDictItems, cur_cons, hcb, Bool.false_eq_true, if_false, hpk,
-        dropTriv_cons_of_not _ _ (closer_not_skippable ":")]
+        dropTriv_cons_of_not blk _ _ (closer_not_skippable blk ":")]
       have h1 : isOp (opTok ":") ":" = true := by simp [isOp_opTok]
-      simp only [h1, Bool.not_true, Bool.false_eq_true, if_false, adv_clean _ _ hcl2, dropTriv_triv,
-        dropTriv_render, hpv, dropTriv_cons_of_not _ _ (closer_not_skippable ","), cur_cons]
+      simp only [h1, Bool.not_true, Bool.false_eq_true, if_false, adv_clean blk _ _ hcl2, dropTriv_triv blk,
+        dropTriv_render blk, hpv, dropTriv_cons_of_not blk _ _ (closer_not_skippable blk ","), cur_cons]
       have h2 : isOp (opTok ",") "," = true := by simp [isOp_opTok]
-      simp only [h2, if_true, adv_clean _ _ hcl4, dropTriv_triv, dropTriv_entries_tail, hi]
+      simp only [h2, if_true, adv_clean blk _ _ hcl4, dropTriv_triv blk, dropTriv_entries_tail blk, hi]
       simp [valEntries]
     | _, _, 0 => omega
 end
